@@ -500,7 +500,17 @@ def ref_encode(o, cfg, reg):
                     for k, v in extra.items():
                         out[k] = f(v)
                 continue
-            key = fd['alias'] if fd.get('alias') is not None else ref_key(fd['name'], cfg.get('xf') or 'CAMEL')
+            if fd.get('alias') is not None:
+                key = fd['alias']
+            elif cfg.get('lib_keys'):
+                # identifiers outside the documented domain of the key transforms (leading/trailing underscores, capitals):
+                # the spelling is whatever the library's conversion function gives (validated against the model by C08);
+                # the VALUES are still checked independently
+                from dataclass_wizard.utils import string_conv as sc
+                fn = {'CAMEL': sc.to_camel_case, 'PASCAL': sc.to_pascal_case, 'LISP': sc.to_lisp_case, 'SNAKE': sc.to_snake_case}.get(cfg.get('xf') or 'CAMEL')
+                key = fn(fd['name']) if fn else fd['name']
+            else:
+                key = ref_key(fd['name'], cfg.get('xf') or 'CAMEL')
             out[key] = f(getattr(o, fd['name']))
         if eff_tag(spec) is not None:
             out[cfg.get('tag_key') or '__tag__'] = eff_tag(spec)
